@@ -97,21 +97,21 @@ func (a *Antispammer) IsSpam(id string, name string, isNewSource bool, event []b
 	}
 
 	threshold := a.threshold
-	if a.rules == nil {
-		for i := 0; i < len(a.exceptions); i++ {
-			e := &a.exceptions[i]
-			checkData := event
-			if e.CheckSourceName {
-				checkData = []byte(name)
-			}
-			if e.Match(checkData) {
-				if e.Name != "" {
-					a.exceptionMetric.WithLabelValues(e.Name).Inc()
-				}
-				return false
-			}
+	// exceptions (deprecated in favor of rules) keep working when rules are configured as well
+	for i := 0; i < len(a.exceptions); i++ {
+		e := &a.exceptions[i]
+		checkData := event
+		if e.CheckSourceName {
+			checkData = []byte(name)
 		}
-	} else {
+		if e.Match(checkData) {
+			if e.Name != "" {
+				a.exceptionMetric.WithLabelValues(e.Name).Inc()
+			}
+			return false
+		}
+	}
+	if a.rules != nil {
 		data := &antispamData{
 			eventBytes: event,
 			sourceName: name,
